@@ -61,13 +61,24 @@ def instances(tier, rng):
     cycs = C.spread(cyc, 6 if quick else 40) + C.spread(cyc4, 18 if quick else 250)
     insts = []
     g = 0
-    for us, classes in ((dags, C.DAG_K + C.DAG_MIN), (cycs, C.CYC_K + C.CYC_MIN)):
+    mdag, mcyc = C.motifs()
+    mdag, mcyc = C.spread(mdag, 4 if quick else 12), C.spread(mcyc, 4 if quick else 18)
+    for us, classes in ((dags, C.DAG_K + C.DAG_MIN), (cycs, C.CYC_K + C.CYC_MIN),
+                        (mdag, ["MinFlowDecomp", "kFlowDecomp", "kMinPathError"]), (mcyc, ["MinFlowDecompCycles", "kLeastAbsErrorsCycles"])):
         for u in us:
             for cls in classes:
                 cover = cls in C.COVER
                 variants = [{}]
                 es = C.route_edges(rng.choice(u["proutes"]))
                 variants.append({"cons": [es[:2]]})
+                if len(u["nodes"]) > 4 and not cls.endswith("Cycles"):
+                    # a constraint crossing the planted routes, to be covered to a fraction whose product with the
+                    # length is not integral: shortcuts (greedy, safe paths) and the model must agree on the threshold
+                    cr = C.crossing_routes(u)
+                    if cr:
+                        ce = C.route_edges(rng.choice(cr))
+                        variants.append({"cons": [[ce[0], ce[-1]]], "cov": rng.choice([[3, 4], [2, 3]])})
+                        variants.append({"cons": [ce], "cov": rng.choice([[3, 4], [1, 2], [2, 3]])})
                 if not quick:
                     variants.append({"mode": "node"})
                 for var in variants:
